@@ -74,6 +74,9 @@ def census(F, pkgs):
                 # compiler-inserted debug UB checks (null / misaligned raw pointer deref inside vec!/box expansions);
                 # no safe-code input controls them
                 continue
+            if m["ak"] in ("DivisionByZero", "RemainderByZero") and (lib.op_const_int(m["a"]) or 0) != 0:
+                # D-const: the divisor is a non-zero compile-time constant; the assert cannot fire
+                continue
             sig = "assert:%s:%s:%s" % (m["ak"], m.get("op") or "-", m.get("ty") or "-")
             out[(b.path, sig)].append((t["line"], t["file"]))
         for i, t in b.calls():
